@@ -431,6 +431,15 @@ func (s *Sim) ClientWrite(node string, val string) (*Write, error) {
 	return w, nil
 }
 
+func (s *Sim) CancelWrite(idx int) {
+	s.mu.Lock()
+	w := s.writes[idx]
+	s.mu.Unlock()
+	if w.cancel != nil {
+		w.cancel()
+	}
+}
+
 func (s *Sim) Writes() []Write {
 	s.mu.Lock()
 	defer s.mu.Unlock()
